@@ -19,6 +19,35 @@ UNITS = {
         ],
         "contracts": ["contracts/base64.vc"],
     },
+    "base64_decode": {
+        "preludes": ["shims/core.rs"],
+        "specs": ["contracts/spec/base64.rs", "contracts/spec/base64_top.rs"],
+        "sources": [
+            SYMBOL_SRC,
+            ("src/core/base64/mod.rs", [
+                "struct:Base64",
+                "fn:Base64::get_base64_char_list:assume",
+                "fn:Base64::encode:assume",
+                "fn:Base64::convert_base64_char_to_number",
+                "fn:Base64::decode_sequence",
+                "fn:Base64::decode",
+            ]),
+        ],
+        "contracts": ["contracts/base64.vc"],
+    },
 }
 for k, v in UNITS.items():
     v["name"] = k
+
+PROPS = {
+    "C18": {
+        "units": ["base64_encode", "base64_decode"],
+        "falsifier": "base64",
+        "level": "proof",
+        "samples": [
+            "Base64::encode / postcondition / res.is_ok() && res.unwrap()@ == b64(bytes@)",
+            "Base64::encode_sequence / postcondition / 1 <= bytes@.len() <= 3 ==> res.is_ok() && res.unwrap()@ == group(bytes@)",
+        ],
+        "assumptions": [],
+    },
+}
